@@ -53,6 +53,21 @@ Theorem C18_always_a_deliberate_exit : forall sigma io i,
 Proof. exact run_is_exit. Qed.
 Print Assumptions C18_always_a_deliberate_exit.
 
+(* The same with a decidable guard: "declared before use" (every embedded field
+   and every `type A B` refers to an earlier type spec or to an undeclared name),
+   safe function declarations, package clauses - for the package and for every
+   destination package.  The correspondence check evaluates input_ok on every
+   sampled case and reports how many lie inside this domain. *)
+Theorem C18_always_a_deliberate_exit_decidable : forall sigma io i,
+  input_ok i = true -> is_exit (fst (run sigma io i)).
+Proof. exact run_is_exit_ok. Qed.
+Print Assumptions C18_always_a_deliberate_exit_decidable.
+
+Theorem C18_declared_before_use_is_well_founded : forall tops,
+  ordered tops = true -> embedding_wf tops.
+Proof. exact ordered_wf. Qed.
+Print Assumptions C18_declared_before_use_is_well_founded.
+
 (* ... and a deliberate exit has status 0, 1 or 2 (and carries its diagnostic). *)
 Theorem C18_exit_status_at_most_2 : forall d, exit_code d <= 2.
 Proof. exact exit_code_le_2. Qed.
@@ -126,6 +141,8 @@ Print Assumptions C18_refuted_K_rename_fail_after_write.
 (* a package with embedding of depth 2 through a pointer *)
 Example C18_example_input_wf : forall args, input_wf (ex_input args).
 Proof. exact ex_input_wf. Qed.
+Example C18_example_input_ok : forall args, input_ok (ex_input args) = true.
+Proof. exact ex_input_ok. Qed.
 Example C18_example_outcomes :
   fst (run id_order no_fault (ex_input ["new"; "-type=Top,Mid"; "-getset"])) = Exit DSuccess /\
   fst (run id_order no_fault (ex_input ["new"; "-type=Top,Nope"])) = Exit DNewNotExists /\
